@@ -73,7 +73,7 @@ func init() {
 		},
 		Run: run,
 		Require: []string{"runs_plain", "runs_streaming", "runs_goroutines", "runs_apiclient", "orders_all_permutations", "merges_observed",
-			"hosts_failed", "hosts_empty", "cases_limit_below_union", "cases_mixed_zones", "cases_with_stats", "streaming_partials"},
+			"hosts_failed", "hosts_empty", "cases_limit_below_union", "cases_mixed_zones", "cases_with_stats", "streaming_partials", "cases_union_above_partial_cap"},
 	})
 }
 
@@ -125,7 +125,9 @@ type hostSpec struct {
 	Zone      int        // 0 = UTC, else index into zoneOffsets: fresh fixed zone per result
 }
 
-var zoneOffsets = []int{0, 2 * 3600, -5 * 3600}
+// (Go caches the *Location of unnamed whole-hour zones, so two hosts in +02:00 share it; hosts in
+// different zones, or in a half-hour zone, never do)
+var zoneOffsets = []int{0, 2 * 3600, -5 * 3600, 5*3600 + 1800}
 
 type caseSpec struct {
 	Hosts   []hostSpec
@@ -139,6 +141,7 @@ type caseSpec struct {
 	First   int64
 	Last    int64
 	Binned  bool
+	Big     bool // union above the streaming partial-result cap
 }
 
 func (s *caseSpec) describe() string {
@@ -172,6 +175,14 @@ func genCase(r *rand.Rand, tier string) *caseSpec {
 	var attrs []string
 	for _, i := range perm[:na] {
 		attrs = append(attrs, all[i])
+	}
+	// a share of the cases has a union far above the partial-result cap of streaming queries (100 rows)
+	big := r.Intn(8) == 0
+	if big {
+		attrs = append([]string(nil), all...)
+		if n > 4 {
+			n = 2 + r.Intn(3)
+		}
 	}
 	s.Time = r.Intn(3) == 0
 	hostLabel := r.Intn(3) == 0
@@ -213,6 +224,9 @@ func genCase(r *rand.Rand, tier string) *caseSpec {
 	poolSize := 1 + r.Intn(14)
 	if n > 5 {
 		poolSize = 4 + r.Intn(40)
+	}
+	if big {
+		poolSize = 110 + r.Intn(200)
 	}
 	seen := map[rowKey]bool{}
 	var pool []rowKey
@@ -313,6 +327,9 @@ func genCase(r *rand.Rand, tier string) *caseSpec {
 	}
 	// limit: around the union size, or far above
 	u := len(unionOf(s))
+	if u > 100 {
+		s.Big = true
+	}
 	switch r.Intn(4) {
 	case 0:
 		if u > 1 {
@@ -589,7 +606,7 @@ func (s *caseSpec) class() string {
 		}
 	}
 	cl := "one_zone"
-	if len(zones) > 1 || (s.Time && (zones[1] || zones[2])) {
+	if len(zones) > 1 || (s.Time && (zones[1] || zones[2] || zones[3])) {
 		cl = "non_utc_zones"
 	}
 	if !s.Time {
@@ -960,6 +977,9 @@ func run(c *fw.Case) {
 	}
 	if s.Binned {
 		c.Count("cases_time_binned", 1)
+	}
+	if s.Big && e.Effective > 100 {
+		c.Count("cases_union_above_partial_cap", 1)
 	}
 	if n > 5 {
 		c.Count("cases_many_hosts", 1)
